@@ -85,7 +85,7 @@ Target(r) ==
               ELSE r.res = "ok" /\ post.pol = [kind |-> r.kind, filters |-> r.filters]
     [] r.ev = "Remove" ->
          IF Prop = "C16"
-         THEN IF d \in open THEN r.res = "StillOpen" /\ Same(pre, post, All)
+         THEN IF d \in open THEN r.res # "ok" /\ Same(pre, post, All)
               ELSE r.res = "ok" /\ Gone(post)
          ELSE \* whether the removal had to be refused is C16's question; the other properties follow the logged outcome
               IF r.res = "ok"
@@ -110,6 +110,16 @@ Check(r) ==
                \A o \in 1..N : docs[o].cap = r.docs[o].cap /\ docs[o].st = r.docs[o].st
                                 /\ docs[o].peers = r.docs[o].peers /\ docs[o].pol = r.docs[o].pol
          /\ Global(r)
+    [] r.ev = "Plant" ->
+         \* environment: a record (with its index and head rows) written into the file of a closed store for a document id
+         \* no secret exists for; the planted state is taken from the log, it must be the old one plus that entry,
+         \* with consistent derived tables, and nothing else may differ
+         LET d == r.d  pre == docs[d]  post == r.docs[d] IN
+         /\ r.res = "ok"
+         /\ St(post) = {f \in St(pre) : ~SameId(f, r.e)} \cup {r.e}
+         /\ Derived(post)
+         /\ Same(pre, post, All \ {"st"})
+         /\ \A o \in 1..N : o # d => Same(docs[o], r.docs[o], All)
     [] r.ev \in {"Import", "Open", "Close", "Put", "Peer", "Policy", "Remove"} ->
          Target(r) /\ Frame(r, r.d) /\ Global(r)
     [] r.ev = "Match" -> Prop = "C15" => r.res = Matches(r.pol, r.key)
